@@ -1147,10 +1147,18 @@ class Mailbox:
         # the number of messages is fewer than the previous number of
         # messages it shrunk.
         #
-        if len(msg_keys) < self.num_msgs:
+        #       The same goes for a folder in which a message we know is
+        #       missing although the count is right: we were killed between
+        #       packing the folder (every file renumbered) and committing
+        #       the new message keys. Our UIDs are paired with message keys
+        #       that name other files now, or none.
+        #
+        if len(msg_keys) < self.num_msgs or not set(self.msg_keys).issubset(
+            msg_keys
+        ):
             logger.warning(
-                "Mailbox: '%s' has shrunk, from %d messages to %d. "
-                "Treating it as a new mailbox.",
+                "Mailbox: '%s' has shrunk or lost known messages, from %d "
+                "messages to %d. Treating it as a new mailbox.",
                 self.name,
                 self.num_msgs,
                 len(msg_keys),
